@@ -154,7 +154,11 @@ let run_split (args : (string * string) list) : string =
            let full = (match cuts with c0 :: _ -> c0 = 0 | [] -> false) && last_or (-1) cuts = n in
            if op <> "ipl_cp" then add "fullbounds" (ok full);
            if full then add "cover" (ok (List.concat parts = scan));
-           if op = "k" || op = "ipl" then add "nparts" (ok (List.length parts = k));
+           (* an explicit request for k parts must be honoured; the DEFAULT number of parallel
+              lenders (op "ipl") is not fixed by the property - only its agreement with the
+              reported boundaries is (aspect "count") - so it is recorded, not judged *)
+           if op = "k" then add "nparts" (ok (List.length parts = k));
+           if op = "ipl" then add "i_nparts" (if List.length parts = k then "threads" else "other");
            if op = "ipl_cp" then add "boundsgiven" (ok (bounds = Some given_cuts))
          | _ -> ())
       end;
